@@ -30,6 +30,9 @@ QUERIES = [  # (name, sql, mode choices, tables)
     ("unnest", "SELECT id, unnest(readings) AS r FROM stream", ["emit"], None),
     ("case", "SELECT id, CASE WHEN v > 1 THEN 'hi' ELSE 'lo' END AS lvl FROM stream", ["emit", "sync"], None),
     ("global", "SELECT g, count(*) AS c FROM stream GROUP BY g, GLOBAL WINDOW TRIGGER WHEN COUNT(*) >= 2", ["emit"], None),
+    ("cep_one_row", "SELECT * FROM stream MATCH_RECOGNIZE (PARTITION BY g ORDER BY ts MEASURES COUNT(*) AS n, FIRST(id) AS f PATTERN (A{2}) DEFINE A AS w >= 0)", ["emit"], None),
+    ("cep_all_rows", "SELECT * FROM stream MATCH_RECOGNIZE (PARTITION BY g ORDER BY ts MEASURES CLASSIFIER() AS cls, COUNT(*) AS n ALL ROWS PER MATCH PATTERN (A{2}) DEFINE A AS w >= 0)", ["emit"], None),
+    ("cep_all_rows_nopart", "SELECT * FROM stream MATCH_RECOGNIZE (ORDER BY ts MEASURES LAST(id) AS li ALL ROWS PER MATCH PATTERN (A B) DEFINE A AS w >= 0, B AS w >= 0)", ["emit"], None),
 ]
 PAIRS = [  # same expression text with different column types, same SQL / different data, different SQL
     ("SELECT id, x + y AS r FROM stream", "num", "SELECT id, x + y AS r FROM stream", "str"),
